@@ -1,5 +1,3 @@
-//go:build !vsreal
-
 // Package c06: after any history of RPCs that have ended, a probe RPC on the same
 // (still open) connection reaches its handler and completes.
 package c06
